@@ -30,7 +30,9 @@ import (
 
 	"verif/core"
 	"verif/glife"
+	"verif/sig"
 	"verif/vrt"
+	"verif/vtime"
 )
 
 const descPlain = `{"users":{"alice":{"password":"pa","permissions":"op"},"bob":{"password":"pb","permissions":"present"},"carol":{"password":"pc","permissions":"present"}}}`
@@ -171,6 +173,36 @@ func programs() []prog {
 				func() { w.join(w.b, "bob", "pb") },
 			}, []string{"update", "join(bob)"}, func() (string, *core.Violation) {
 				return w.membership()
+			}
+	})
+	add("expiring-update-vs-join", func() ([]func(), []string, func() (string, *core.Violation)) {
+		w := newWorld(descPlain)
+		group.Add("g", nil)
+		// the group has been idle for longer than the history age
+		vtime.Advance(5 * time.Hour)
+		return []func(){
+				func() { group.Update() },
+				func() { w.join(w.b, "bob", "pb") },
+			}, []string{"update(expire)", "join(bob)"}, func() (string, *core.Violation) {
+				if w.errs["b"] == nil {
+					g := group.Get("g")
+					if g == nil || g != w.b.G {
+						return "", &core.Violation{Signature: "C13/joined-orphan-group",
+							What: "a client joined successfully but its group is not (or no longer) the registered group of that name"}
+					}
+				}
+				return fmt.Sprint(w.errs["b"] == nil, group.Get("g") != nil), nil
+			}
+	})
+	add("expiring-update-vs-listing", func() ([]func(), []string, func() (string, *core.Violation)) {
+		newWorld(descPlain)
+		group.Add("g", nil)
+		vtime.Advance(5 * time.Hour)
+		return []func(){
+				func() { group.Update() },
+				func() { group.GetSubGroups(""); group.GetPublic(nil); stats.GetGroups() },
+			}, []string{"update(expire)", "listings"}, func() (string, *core.Violation) {
+				return fmt.Sprint(group.Get("g") != nil), nil
 			}
 	})
 	add("delete-vs-join", func() ([]func(), []string, func() (string, *core.Violation)) {
@@ -423,6 +455,53 @@ func main() {
 		res.Assume("scheduling points: every Lock/Unlock of the instrumented packages' mutexes, atomic operations, file operations, channel operations of unbounded; monitored fields: Group.{clients,locked,description,history,timestamp,data}, the registry and configuration, unbounded.Channel.queue")
 		res.Assume("clients other than WhipClient and the disk writer are recording fakes whose callbacks do not block")
 		core.Finish(res, t0)
+	}
+	// signalling-level program: the chat history under concurrent posting and
+	// replay (real webClients; handlers interleave at lock and channel operations)
+	if core.Want("history-replay-vs-post") {
+		sig.Scheduled = true
+		hp := sig.RaceProgram{Name: "history-replay-vs-post", Clients: 3, MaxPreempt: core.Pick(1, 2),
+			Groups: map[string]string{"g": descPlain},
+			Setup: func(w *sig.World) {
+				w.Send(0, sig.Join("g", "alice", "pa"))
+				w.Send(1, sig.Join("g", "bob", "pb"))
+				for k := 0; k < 50; k++ {
+					w.Send(1, sig.Msg{"type": "chat", "source": "c1", "username": "bob", "value": fmt.Sprintf("m%02d", k)})
+				}
+			},
+			Names: []string{"c0:chat", "c2:join+replay"},
+			Threads: []func(w *sig.World){
+				func(w *sig.World) {
+					w.Send(0, sig.Msg{"type": "chat", "source": "c0", "username": "alice", "value": "m50"})
+				},
+				func(w *sig.World) {
+					w.Send(2, sig.Join("g", "carol", "pc"))
+					for n := 0; n < 10 && w.Clients[2].V.Signalled(); n++ {
+						w.Drain(2)
+					}
+				},
+			},
+			Final: func(w *sig.World) (string, *core.Violation) {
+				prev := -1
+				cnt := 0
+				for _, m := range w.Clients[2].Out {
+					if m["type"] != "chathistory" {
+						continue
+					}
+					var n int
+					v, _ := m["value"].(string)
+					if _, err := fmt.Sscanf(v, "m%d", &n); err != nil || (prev >= 0 && n != prev+1) {
+						return "", &core.Violation{Signature: "C13/history-corrupted-under-concurrency",
+							What: fmt.Sprintf("the chat history replayed to a joiner while another member posted to the full history is corrupted (entry %q after m%02d): the history is read outside the group lock", v, prev)}
+					}
+					prev = n
+					cnt++
+				}
+				return fmt.Sprint(cnt), nil
+			}}
+		sub := vrt.Explore(hp.Program("C13/signalling"), res, o.Shard, o.Shards)
+		res.AddSub(sub)
+		sig.Cleanup()
 	}
 	for i, p := range programs() {
 		if !core.Want(p.name) {
